@@ -104,6 +104,10 @@ TableMakers == << <<SetV("t", 1, Arr(<<>>))>>,
                   \* reals that differ by less than any tolerance are different numbers all the same
                   <<SetV("t", 1, Arr(<<Sm(3), Sm(1), RealC(0, 0), Sm(2), Sm(-1)>>))>>,
                   <<SetV("t", 1, Arr(<<Sm(1), Sm(2), IntC(0), RealC(1, 1)>>))>>,
+                  \* values that cannot be ordered against each other (different strings of equal length: neither is less): the
+                  \* first of them stays the extremum, a stable sort keeps their order
+                  <<SetV("t", 1, Arr(<<Str("aa", 2), Str("bb", 2), Str("c", 1)>>))>>,
+                  <<SetV("t", 1, Arr(<<Str("x", 1), Str("pq", 2), Str("rs", 2), Str("y", 1)>>))>>,
                   \* entries whose value is nil are entries like any other
                   <<SetV("t", 1, Arr(<<IntC(4), NilC, IntC(6), NilC>>))>>,
                   <<SetV("t", 1, C("CreateTable", <<>>, 0, 0, "", <<>>)),
